@@ -1,7 +1,198 @@
 package main
 
-import "golang.org/x/tools/go/ssa"
+// E3 — guard analysis for peer-controlled values: explicit panics (G1),
+// allocations (G2), index/slice bounds (G3, with the compiler's bounds-check
+// elimination as discharge oracle), stdlib preconditions (G4) and unchecked
+// type assertions (G5).
 
-// placeholder until E3 is implemented
+import (
+	"bufio"
+	"fmt"
+	"go/constant"
+	"go/token"
+	"os"
+	"os/exec"
+	"path/filepath"
+	"regexp"
+	"sort"
+	"strconv"
+	"strings"
+
+	"golang.org/x/tools/go/ssa"
+)
+
+var wireRoots = []string{
+	"fdo/http.Handler.ServeHTTP",
+	"fdo.DIServer.Respond", "fdo.TO0Server.Respond", "fdo.TO1Server.Respond", "fdo.TO2Server.Respond",
+	"fdo.DIServer.HandleError", "fdo.TO0Server.HandleError", "fdo.TO1Server.HandleError", "fdo.TO2Server.HandleError",
+	"fdo.TO2Server.CryptSession",
+	"fdo.DI", "fdo.TO1", "fdo.TO2", "fdo.TO0Client.RegisterBlob",
+	"fdo/http.Transport.Send",
+	"fdo/protocol.ParseDeviceRvInfo", "fdo/protocol.ParseOwnerRvInfo",
+}
+
+// E3 is the shared result of the taint analysis over a set of roots.
+type E3 struct {
+	p      *Prog
+	roots  []*ssa.Function
+	region map[*ssa.Function]bool
+	order  []*ssa.Function
+	t      *Taint
+}
+
+func newE3(p *Prog, r *Result, rootNames []string, extra []*ssa.Function) *E3 {
+	e := &E3{p: p}
+	for _, n := range rootNames {
+		fn := p.ByName[n]
+		if fn == nil {
+			r.fail("E3: wire entry point %s not found", n)
+			continue
+		}
+		e.roots = append(e.roots, fn)
+	}
+	e.roots = append(e.roots, extra...)
+	e.region = p.Reachable(e.roots, func(fn *ssa.Function) bool { return isHarnessPkg(funcPkgPath(fn)) })
+	for fn := range e.region {
+		e.order = append(e.order, fn)
+	}
+	sort.Slice(e.order, func(i, j int) bool { return p.FuncName(e.order[i]) < p.FuncName(e.order[j]) })
+	e.t = newTaint(p, e.region)
+	for _, fn := range e.order {
+		r.Functions[p.FuncName(fn)] = true
+		r.Packages[funcPkgPath(fn)] = true
+	}
+	return e
+}
+
+// condTainted: some branch condition on the dominator chain of b is tainted.
+func (e *E3) condTainted(b *ssa.BasicBlock) (bool, string) {
+	for d := b.Idom(); d != nil; d = d.Idom() {
+		if ifi, ok := d.Instrs[len(d.Instrs)-1].(*ssa.If); ok {
+			if e.t.Is(ifi.Cond) || condOperandTainted(e.t, ifi.Cond) {
+				return true, e.p.instrPos(ifi)
+			}
+		}
+	}
+	return false, ""
+}
+
+func condOperandTainted(t *Taint, v ssa.Value) bool {
+	switch x := v.(type) {
+	case *ssa.BinOp:
+		return t.Is(x.X) || t.Is(x.Y)
+	case *ssa.UnOp:
+		return t.Is(x.X) || condOperandTainted(t, x.X)
+	case *ssa.Phi:
+		for _, e := range x.Edges {
+			if t.Is(e) || condOperandTainted(t, e) {
+				return true
+			}
+		}
+	}
+	return false
+}
+
+func panicMessage(pn *ssa.Panic) string {
+	v := pn.X
+	if mi, ok := v.(*ssa.MakeInterface); ok {
+		v = mi.X
+	}
+	if c, ok := v.(*ssa.Const); ok && c.Value != nil && c.Value.Kind() == constant.String {
+		return constant.StringVal(c.Value)
+	}
+	if bo, ok := v.(*ssa.BinOp); ok {
+		if c, ok := bo.X.(*ssa.Const); ok && c.Value != nil && c.Value.Kind() == constant.String {
+			return constant.StringVal(c.Value) + "…"
+		}
+	}
+	return "<dynamic>"
+}
+
+// ---- BCE oracle ----------------------------------------------------------------
+
+type bceSite struct {
+	file string
+	line int
+	col  int
+	kind string
+}
+
+var reBCE = regexp.MustCompile(`^(.*?):(\d+):(\d+): Found (IsInBounds|IsSliceInBounds)`)
+
+// unprovenBounds runs the Go compiler's prove pass over the three modules and
+// returns the bounds checks it could NOT eliminate (everything else was proved
+// in range by the compiler).
+func unprovenBounds(repo string, cfg BuildConfig) ([]bceSite, error) {
+	var out []bceSite
+	for _, m := range []string{".", "sqlite", "fsim"} {
+		dir := filepath.Join(repo, m)
+		cmd := exec.Command("go", "build", "-gcflags=-d=ssa/check_bce/debug=1", "./...")
+		if cfg.Tags != "" {
+			cmd.Args = append(cmd.Args[:2], append([]string{"-tags=" + cfg.Tags}, cmd.Args[2:]...)...)
+		}
+		cmd.Dir = dir
+		env := []string{}
+		for _, kv := range os.Environ() {
+			k, _, _ := strings.Cut(kv, "=")
+			switch k {
+			case "GOWORK", "GOFLAGS", "GOTOOLCHAIN", "GOSUMDB", "GOARCH", "GOOS", "GOPROXY":
+				continue
+			}
+			env = append(env, kv)
+		}
+		cmd.Env = append(env, "GOFLAGS=-mod=mod", "GOPROXY=off", "GOOS=linux", "GOARCH="+cfg.GOARCH, "GOWORK=off")
+		b, err := cmd.CombinedOutput()
+		sc := bufio.NewScanner(strings.NewReader(string(b)))
+		n := 0
+		for sc.Scan() {
+			mm := reBCE.FindStringSubmatch(sc.Text())
+			if mm == nil {
+				continue
+			}
+			f := mm[1]
+			if !filepath.IsAbs(f) {
+				f = filepath.Join(dir, f)
+			}
+			f = filepath.Clean(f)
+			ln, _ := strconv.Atoi(mm[2])
+			cl, _ := strconv.Atoi(mm[3])
+			out = append(out, bceSite{f, ln, cl, mm[4]})
+			n++
+		}
+		if err != nil && n == 0 {
+			return nil, fmt.Errorf("go build (bce) in %s: %v\n%s", dir, err, string(b))
+		}
+	}
+	return out, nil
+}
+
+// ---- survey (debugging aid) ------------------------------------------------------
+
+func (e *E3) survey() {
+	p := e.p
+	for _, fn := range e.order {
+		for _, b := range fn.Blocks {
+			for _, in := range b.Instrs {
+				switch x := in.(type) {
+				case *ssa.Panic:
+					ct, where := e.condTainted(b)
+					fmt.Printf("PANIC %-60s %s tainted-cond=%v %s msg=%q\n", p.FuncName(fn), p.instrPos(in), ct, where, panicMessage(x))
+				case *ssa.MakeSlice:
+					if _, ok := x.Len.(*ssa.Const); !ok {
+						fmt.Printf("MAKE  %-60s %s tainted-len=%v\n", p.FuncName(fn), p.instrPos(in), e.t.Is(x.Len))
+					}
+				case *ssa.TypeAssert:
+					if !x.CommaOk {
+						fmt.Printf("TYPEA %-60s %s tainted=%v to %s\n", p.FuncName(fn), p.instrPos(in), e.t.Is(x.X), shortTypeString(x.AssertedType))
+					}
+				}
+			}
+		}
+	}
+}
+
+var _ = token.ADD
+
+// placeholder wiring; replaced below by the real obligations
 func panicObligations(c *Ctx, p *Prog, r *Result, prefix string, roots []*ssa.Function, skip func(*ssa.Function) bool) {
 }
